@@ -71,10 +71,10 @@ BOUNDS = {
              "with >= 12 vertices or 2-3 starting meshes); 9 sharing-prone / one-per-class configurations <= 3 events "
              "(reduced menu, mini menu for the 2 boundary configurations); 8 producer pairs <= 2 events (reduced menu); rotation sweep "
              "(23 rotations x 3 argument forms, each followed by its inverse) on 4 producers; live set <= 3 meshes",
-    "thorough": "56 producer configurations: all histories of <= 3 events (full menu) and <= 4 events (mini menu); the 9 "
-                "configurations with >= 12 vertices or 2-3 starting meshes: <= 2 events (full menu) and <= 3 events (reduced "
-                "menu); 8 sharing-prone configurations <= 4 events (reduced menu); 8 producer pairs <= 3 events (reduced "
-                "menu); rotation sweep on 12 producers; live set <= 3 meshes",
+    "thorough": "65 producer configurations: all histories of <= 2 events (full menu) and <= 3 events (reduced menu; full "
+                "menu for 8 sharing-prone / one-per-class configurations); 56 configurations (< 12 vertices, one starting mesh, "
+                "plus the 3 boundary configurations) <= 4 events (mini menu); 4 sharing-prone configurations <= 4 events "
+                "(reduced menu); 8 producer pairs <= 3 events (reduced menu); rotation sweep on 12 producers; live set <= 3 meshes",
 }
 
 MAX_LIVE = 3
@@ -218,12 +218,12 @@ def tasks(tier):
         for n in DEEP[:4]:
             out.append({"kind": "rotsweep", "start": [n]})
     else:
+        deep1 = [n for n in DEEP if n not in TWO]
         for n in names:
-            out.append({"kind": "bfs", "start": [n], "menu": "reduced" if n in BIG else "full", "depth": 3})
+            out.append({"kind": "bfs", "start": [n], "menu": "full", "depth": 2})
         for n in names:
-            if n in BIG:
-                out.append({"kind": "bfs", "start": [n], "menu": "full", "depth": 2})
-        for n in DEEP[:8]:
+            out.append({"kind": "bfs", "start": [n], "menu": "full" if n in deep1[:8] else "reduced", "depth": 3})
+        for n in deep1[:4]:
             out.append({"kind": "bfs", "start": [n], "menu": "reduced", "depth": 4})
         for n in names:
             if n not in BIG:
